@@ -710,7 +710,7 @@ def small_pool(ctx, n, max_men=32, nonterminal=True):
     return out[:n]
 
 
-TERMINAL_FENS = ["7k/5Q2/6K1/8/8/8/8/8 b - - 0 1", "7k/6Q1/6K1/8/8/8/8/8 b - - 0 1", "k7/8/1K6/8/8/8/8/R7 w - - 0 1",
+TRACE_TERMINAL_FENS = ["7k/5Q2/6K1/8/8/8/8/8 b - - 0 1", "7k/6Q1/6K1/8/8/8/8/8 b - - 0 1", "k7/8/1K6/8/8/8/8/R7 w - - 0 1",
                  "rnb1kbnr/pppp1ppp/8/4p3/6Pq/5P2/PPPPP2P/RNBQKBNR w KQkq - 1 3", "8/8/8/8/8/5k2/5p2/5K2 w - - 0 1"]
 
 
@@ -767,7 +767,7 @@ def trace_correspondence(ctx, nq, nt):
         if not ctx.quick and nmen <= 10 and ctx.rng.random() < 0.3:
             d += 1
         items.append((f, d, ctx.rng.choice([37, 500, 1000000])))
-    for f in TERMINAL_FENS:
+    for f in TRACE_TERMINAL_FENS:
         items.append((f, 2, 1000))
     res = parallel_map(run_trace, items, workers=min(12, infra.NCPU))
     ref = run_batch(MDRV, [f"mtrace\t{f}\t{d}\t{iv}" for f, d, iv in items], shards=infra.NCPU, timeout_per_op=300.0)
@@ -1000,8 +1000,13 @@ def run_interrupt(item):
         s.send(f"position {fen}")
         if mode == "stop":
             s.send("go infinite")
-            got, st = s.read_until(lambda l: l.startswith("info string vhold") or l.startswith("bestmove"), 20.0)
+            got, st = s.read_until(lambda l: l.startswith("info string vhold") or l.startswith("bestmove"), 8.0)
             held = st == "match" and got[-1].startswith("info string vhold")
+            if st == "timeout":
+                # the chosen point lies deeper than this position can be searched in the time allowed: stop normally
+                s.send("stop")
+                got2, st = wait_bestmove(s, 20.0)
+                got += got2
             if held:
                 s.send("stop")
                 time.sleep(0.05)
@@ -1033,6 +1038,8 @@ def run_interrupt(item):
 
 def check_C11(ctx):
     n = ctx.size(16, 300)
+    if ctx.quick:
+        n = min(n, 40)     # every position costs ~11 hook-placed sessions; keeps the escalated quick tier within minutes
     pool = small_pool(ctx, n, max_men=14 if ctx.quick else 24)
     pool = [(f, c) for f, c in pool if c >= 2]
     items = []
@@ -2247,6 +2254,64 @@ def check_C14(ctx):
                                                      "what": "analysis depends on the currmoveLogInterval option or on the previous identical search", "fresh": fresh[-3:], "again": again[-3:]})
         if len(ctx.samples) < 3:
             ctx.sample({"probe": [f, d], "history": history_lines(h)[:8], "analysis_tail": fresh[-2:]})
+    follow_game_check(ctx, pool[:max(12, len(pool) // 2)])
+
+
+def follow_game_check(ctx, pool):
+    """the game follows the line the engine predicted (what a GUI does move after move): search Q, then probe
+    P = Q + the first one or two moves of that search's principal variation, reached through `position Q moves ...`
+    in the same process, against the same probe in a fresh process"""
+    items = []
+    for f, cnt in pool:
+        nmen = sum(1 for c in f.split()[0] if c.isalpha())
+        d1 = ctx.rng.choice([2, 3, 4]) if nmen <= 16 else ctx.rng.choice([2, 3])
+        items.append((f, d1, ctx.rng.choice([2, 3]) if nmen > 16 else ctx.rng.choice([2, 3, 4]), ctx.rng.choice([1, 1, 2]), ctx.rng.random() < 0.3))
+
+    def one(item):
+        f, d1, d, k, stopped = item
+        s = Session()
+        try:
+            s.send(f"position {f}")
+            if stopped:
+                s.send("go infinite")
+                time.sleep(0.05)
+                s.send("stop")
+            else:
+                s.send(f"go depth {d1}")
+            got, st = wait_bestmove(s, 120.0)
+            if st != "match":
+                return None
+            an = analysis_of(got)
+            pv = next((list(x[3]) for x in reversed(an) if x[0] in ("final", "depth")), [])
+            if len(pv) < 1:
+                return None
+            mv = pv[:min(k, len(pv))]
+            cmd = f"{f} moves {' '.join(mv)}"
+            after, st2 = probe(s, cmd, d)
+        finally:
+            s.kill()
+        if after is None:
+            return ("skip", cmd)        # e.g. the line ends the game: C03/C17 territory
+        s1 = Session()
+        try:
+            fresh, st1 = probe(s1, cmd, d)
+        finally:
+            s1.kill()
+        return (cmd, fresh, after)
+    res = parallel_map(one, items, workers=8)
+    ctx.co["co_session_follow_pv"] = len(items)
+    for (f, d1, d, k, stopped), r in zip(items, res):
+        if r is None or r[0] == "skip":
+            ctx.bump("follow_skipped")
+            continue
+        cmd, fresh, after = r
+        ctx.case(f"follow|{cmd}|{d1}|{d}")
+        ctx.bump("hist:follow_pv_stopped" if stopped else "hist:follow_pv")
+        if fresh is not None and after != fresh:
+            first = f"go infinite + stop" if stopped else f"go depth {d1}"
+            ctx.violation(f"session-follow:{cmd}:{d}", {"kind": "history", "lines": [f"position {f}", first, "<wait for bestmove>", f"position {cmd}", f"go depth {d}"],
+                                                       "what": "analysis of the position reached by following the previous search's principal variation differs from the analysis in a fresh engine",
+                                                       "fresh": fresh[-3:], "after_history": after[-3:]})
 
 
 def snapshot_text(s):
